@@ -62,6 +62,10 @@ def _case(draw):
             # the calculator object bootstrapped before on another system / with another rotating-wave frequency
             "split": draw(st.sampled_from([None, None, None, 10, 40, 90])) if n >= 2 else None,
             "rebootstrap": draw(st.sampled_from([False, False, True])),
+            # non-zero electronic ground-state energies (a common shift of the whole Hamiltonian), and an aggregate that
+            # was diagonalised (Aggregate.diagonalize) before the calculator got it
+            "ground": [draw(st.integers(0, 400)) for _ in range(n)] if draw(st.sampled_from([False, False, True])) else None,
+            "diagonalized_before": draw(st.sampled_from([False, False, True])),
             "quat": list(q), "perm": list(draw(st.permutations(list(range(n))))),
             "tensor": draw(st.booleans()) if n >= 2 else False}
 
@@ -87,10 +91,13 @@ def split_spec(spec, split):
     return dict(spec, J=J)
 
 
-def run_calc(qr, spec, molecule=False, tensor=False, fingerprint=False, split=None, rebootstrap=False, repeat=False):
+def run_calc(qr, spec, molecule=False, tensor=False, fingerprint=False, split=None, rebootstrap=False, repeat=False,
+             diagonalized=False):
     t0, nt, dt = spec["time"]
     ta = qr.TimeAxis(t0, int(nt), dt)
     agg = gens.make_aggregate(qr, spec, build=not molecule)
+    if diagonalized and not molecule:
+        agg.diagonalize()
     extra = {}
     if molecule:
         mol = agg.monomers[0]
@@ -165,8 +172,14 @@ def check_case(case, ctx):
         tag = tag + "/split"
     if reboot:
         ctx.label("calculator-bootstrapped-before")
+    if case.get("ground") and not molecule:
+        spec = dict(spec, ground=case["ground"])
+        ctx.label("ground-energies!=0")
+    diag_before = bool(case.get("diagonalized_before")) and not molecule
+    if diag_before:
+        ctx.label("aggregate-diagonalized-before")
     ok, r = guarded(ctx, "calculate", lambda: run_calc(qr, spec, molecule, tensor, fingerprint=True, split=split,
-                                                       rebootstrap=reboot, repeat=True), tag)
+                                                       rebootstrap=reboot, repeat=True, diagonalized=diag_before), tag)
     if not ok:
         return
     w, S, extra = r
